@@ -542,10 +542,27 @@ def run(ctx):
     corpus = ctx.corpus()
     resolve(ctx, binary, corpus)
     cases = corpus + ([] if ctx.replay or binary is None else gen(ctx, binary))
-    # another check may have regenerated gen/Consts.v while the harness was building: make sure the
-    # model the case files import is current (no-op otherwise)
-    ctx.coq_make(["model/Closeness.v", "lib/Sha256.v", "lib/Harness.v"])
-    ctx.pipeline(cases, binary, oracle, model_term, IMPORTS, nontrivial=nontrivial, show=show, shard_size=60,
-                 relation="NetworkAddress::distance / convert_distance_to_u256 / sort_peers_by_* / get_peers_in_range / "
-                          "calculate_get_closest_peers / get_replicate_candidates / fetcher+store range filters == "
-                          "Closeness.* with H := Sha256.sha256")
+    relation = ("NetworkAddress::distance / convert_distance_to_u256 / sort_peers_by_* / get_peers_in_range / "
+                "calculate_get_closest_peers / get_replicate_candidates / fetcher+store range filters == "
+                "Closeness.* with H := Sha256.sha256")
+    for attempt in range(3):
+        # Another property's check may regenerate gen/Consts.v (a new constant of its own) while this one is
+        # building the harness or evaluating: the compiled model is then stale ("inconsistent assumptions").
+        # That is a race in the shared build directory, not a property of the code: rebuild and run again.
+        snap = (len(ctx.tie_breaks), len(ctx.impl_viol), dict(ctx.cov["distribution"]), ctx.cov["evaluations"],
+                ctx.cov["traces_validated_against_impl"], set(ctx._nontrivial), list(ctx.cov["samples"]))
+        ctx.coq_make(["model/Closeness.v", "lib/Sha256.v", "lib/Harness.v"])
+        ctx.pipeline(cases, binary, oracle, model_term, IMPORTS, nontrivial=nontrivial, show=show, shard_size=60,
+                     relation=relation)
+        stale = [t for t in ctx.tie_breaks[snap[0]:]
+                 if t[0] == "model-eval" and "inconsistent assumptions" in str(t[2])]
+        if not stale or attempt == 2:
+            break
+        ctx.log("stale compiled model (gen/Consts.v was regenerated concurrently); rebuilding and re-running")
+        del ctx.tie_breaks[snap[0]:]
+        del ctx.impl_viol[snap[1]:]
+        ctx.cov["distribution"] = snap[2]
+        ctx.cov["evaluations"] = snap[3]
+        ctx.cov["traces_validated_against_impl"] = snap[4]
+        ctx._nontrivial = snap[5]
+        ctx.cov["samples"] = snap[6]
